@@ -23,7 +23,7 @@ tvars == <<inp, pc, res, xp, dof, full, tid, l>>
 
 Abs(a) == IF a < 0 THEN -a ELSE a
 InputOK(i) == /\ i.P >= 1 /\ Len(i.blocks) >= 1 /\ Len(i.dofv) = Len(i.blocks)
-              /\ \A k \in 1..Len(i.blocks) : WellFormed(i.blocks[k], i.P)
+              /\ \A k \in 1..Len(i.blocks) : WellFormed(i.blocks[k], i.P) /\ DofAdmissible(i.blocks[k], i.dofopt)
               /\ (i.dofopt # 0 => \A k \in 1..Len(i.blocks) : i.dofv[k] >= 1)
 
 TInit == /\ tid \in 1..Len(Traces) /\ l = 1
